@@ -50,9 +50,9 @@ def run_copy(name, props, tier='quick'):
     /repo's working tree, so it can run while other checks are using /repo."""
     d = os.path.join(ROOT, 'seeded', name)
     props = props or [re.match(r'C\d+', name).group(0)]
-    wt = '/tmp/seedrun/' + name
+    wt = os.environ.get('SEEDRUN_DIR', '/tmp/seedrun') + '/' + name
     sh('rm -rf %s; git -C /repo worktree prune' % wt)
-    r = sh('mkdir -p /tmp/seedrun && git -C /repo worktree add --detach %s HEAD' % wt)
+    r = sh('mkdir -p %s && git -C /repo worktree add --detach %s HEAD' % (os.path.dirname(wt), wt))
     assert r.returncode == 0, r.stdout
     res = {}
     try:
